@@ -200,15 +200,27 @@ func runC10(c *Ctx) {
 		}
 		ok := strings.HasPrefix(t, "document.FromBytes(") && strings.Contains(t, "json-patch") && strings.Contains(t, "(document.Document).Bytes($0)")
 		c.Check("C10.E1", "ietf-json-patch:library-output-reparsed", ok, h.Pos(), "result = "+t)
+		// … and nothing else: the handler and its helpers store nothing into the re-parsed document (a member "carried
+		// over" from the previous document appears as null where it was absent)
+		var writes []string
+		for _, g := range append([]*ssa.Function{h}, c.helpersOf(h, 2)...) {
+			forEachInstr(g, func(in ssa.Instruction) {
+				if mu, isMU := in.(*ssa.MapUpdate); isMU && (typeShort(mu.Map.Type()) == "document.Document" || strings.HasPrefix(c.Path(mu.Map, nil), "document.FromBytes(")) {
+					writes = append(writes, short(g.String())+" at "+c.pos(mu.Pos())+": "+c.Path(mu.Map, nil)+"["+c.Path(mu.Key, nil)+"]")
+				}
+			})
+		}
+		c.Check("C10.E1", "ietf-json-patch:result-not-written", len(writes) == 0, h.Pos(), "the ietf-json-patch handler stores nothing into the document it returns", writes...)
 	} else {
 		c.Unresolved("C10.E1", "handler for ietf-json-patch")
 	}
-	c.Min("C10.E1", 8)
+	c.Min("C10.E1", 9)
 
 	// ---- P1 left fold
 	c.applyPatchesFoldRule("C10.P1")
 	c.jsonPatchFoldRule("C10.P1")
-	c.Min("C10.P1", 6)
+	c.listAccessorLoopsRule("C10.P1")
+	c.Min("C10.P1", 10)
 
 	c.composerSkeletons("C10.X2", handlers)
 	c.Min("C10.X2", 12)
@@ -216,6 +228,11 @@ func runC10(c *Ctx) {
 }
 
 func runC14(c *Ctx) {
+	// "document -> patches -> document" goes through the composer (all of C10: what the handlers and the JSON-patch
+	// handler write), and "patches produced by the constructors pass validation" through the validators (all of C13:
+	// the limits are exactly the documented ones — an id of exactly 50 characters is valid)
+	runC10(c)
+	runC13(c)
 	acts := c.actionConsts()
 	cfg, cfgFn := c.actionValueKeys()
 	ctor := map[string]string{"replace": "NewReplacePatch", "ietf-json-patch": "NewJSONPatch", "add-public-keys": "NewAddPublicKeysPatch", "remove-public-keys": "NewRemovePublicKeysPatch", "add-services": "NewAddServiceEndpointsPatch", "remove-services": "NewRemoveServiceEndpointsPatch", "add-also-known-as": "NewAddAlsoKnownAs", "remove-also-known-as": "NewRemoveAlsoKnownAs"}
@@ -300,38 +317,7 @@ func runC14(c *Ctx) {
 	}
 	c.Min("C14.X1", 24)
 
-	// ---- K3 format strings in the patch package are constants: caller-supplied JSON never takes the place of a format
-	// (a '%' in a service endpoint would be read as a verb)
-	{
-		n, bad := 0, 0
-		var where []string
-		for _, f := range c.Funcs {
-			if pkgPathOf(f) != modPkg+"patch" {
-				continue
-			}
-			forEachInstr(f, func(in ssa.Instruction) {
-				cl, ok := in.(*ssa.Call)
-				if !ok || cl.Call.StaticCallee() == nil || len(cl.Call.Args) < 1 {
-					return
-				}
-				switch cl.Call.StaticCallee().String() {
-				case "fmt.Sprintf", "fmt.Errorf", "fmt.Fprintf", "fmt.Printf":
-				default:
-					return
-				}
-				fa := cl.Call.Args[0]
-				if cl.Call.StaticCallee().String() == "fmt.Fprintf" && len(cl.Call.Args) > 1 {
-					fa = cl.Call.Args[1]
-				}
-				n++
-				if _, isK := fa.(*ssa.Const); !isK {
-					bad++
-					where = append(where, short(f.String())+" at "+c.pos(cl.Pos())+": "+c.Path(fa, nil))
-				}
-			})
-		}
-		c.Check("C14.K3", "constant-format-strings", bad == 0 && n >= 5, 0, fmt.Sprintf("%d formatting calls in pkg/patch, %d with a format that is not a constant %v", n, bad, where))
-	}
+	c.patchFormatConstRule("C14.K3")
 	c.Min("C14.K3", 1)
 	// the validator's duplicate test for also-known-as URIs compares the URI's own text (C13.U2): a valid document's list
 	// is not refused as containing duplicates
@@ -344,73 +330,7 @@ func runC14(c *Ctx) {
 	}
 
 	// ---- G1
-	fb := c.Fn("patch", "FromBytes")
-	ga := c.Method("patch", "Patch", "GetAction")
-	gv := c.Method("patch", "Patch", "GetValue")
-	if fb == nil || ga == nil || gv == nil {
-		c.Unresolved("C14.G1", "patch.FromBytes / GetAction / GetValue")
-	} else {
-		var A string
-		for _, r := range successReturns(fb) {
-			A = c.Path(r.Results[0], nil)
-		}
-		jsonU := c.ExtFn("encoding/json", "Unmarshal")
-		c.CheckGuard("C14.G1", "FromBytes:decode", fb, nil, callTo("json.Unmarshal(data, &patch)", jsonU, pathIs("$0")))
-		c.CheckGuard("C14.G1", "FromBytes:GetAction", fb, nil, callTo("patch.GetAction()", ga, pathIs(A)))
-		c.CheckGuard("C14.G1", "FromBytes:GetValue", fb, nil, callTo("patch.GetValue()", gv, pathIs(A)))
-		c.Check("C14.G1", "FromBytes:returns-decoded", A == "makemap<patch.Patch>" || A == "new<patch.Patch>#0", fb.Pos(), "FromBytes returns the decoded patch "+A)
-		// GetValue
-		act := short(ga.String()) + "($0)#0"
-		c.CheckGuard("C14.G1", "GetValue:own-action", gv, nil, callTo("GetAction()", ga, pathIs("$0")))
-		// the action GetAction hands back is a key of actionConfig (the lookup's index is the value it returns): a plain
-		// actionConfig[action] in GetValue is then a lookup that cannot miss
-		gaRet := ""
-		for _, r := range successReturns(ga) {
-			gaRet = c.Path(r.Results[0], nil)
-		}
-		// a lookup of the table: actionConfig[a] (comma-ok), or a call of the table function with a
-		cfgOK := func(name string, idx func(string) bool) *GCheck {
-			return &GCheck{Name: name, NoDescend: true, MatchOK: func(c *Ctx, v ssa.Value, env Env) bool {
-				lk, ok := v.(*ssa.Lookup)
-				return ok && c.Path(lk.X, env) == "global:patch.actionConfig" && idx(c.Path(lk.Index, env))
-			}, MatchCall: func(c *Ctx, call *ssa.Call, env Env) bool {
-				return cfgFn != nil && call.Call.StaticCallee() == cfgFn && len(call.Call.Args) == 1 && idx(c.Path(call.Call.Args[0], env))
-			}}
-		}
-		noOK := func(s string) string { return strings.ReplaceAll(s, "]#0", "]") }
-		// the value key of action a, as a path: the looked-up entry or the function's first result
-		isKeyOf := func(p, a string) bool {
-			if noOK(p) == "global:patch.actionConfig["+a+"]" {
-				return true
-			}
-			return cfgFn != nil && p == short(cfgFn.String())+"("+a+")#0"
-		}
-		gaMember, _, gaN := c.Guard(ga, nil, cfgOK("actionConfig[returned action] ok", pathIs(gaRet)), nil)
-		cfgLookup := cfgOK("actionConfig[action] ok", pathIs(act))
-		if gaMember && gaN > 0 {
-			c.CheckGuard("C14.G1", "GetValue:config-lookup", gv, nil, anyOf("actionConfig[action] ok, or the action is the one GetAction vouches for", cfgLookup, callTo("GetAction()", ga, pathIs("$0"))))
-		} else {
-			c.CheckGuard("C14.G1", "GetValue:config-lookup", gv, nil, cfgLookup)
-		}
-		c.CheckGuard("C14.G1", "GetValue:member-present", gv, nil, &GCheck{Name: "patch[valueKey] ok", MatchOK: func(c *Ctx, v ssa.Value, env Env) bool {
-			lk, ok := v.(*ssa.Lookup)
-			return ok && c.Path(lk.X, env) == "$0" && isKeyOf(c.Path(lk.Index, env), act)
-		}})
-		okRet := true
-		for _, r := range successReturns(gv) {
-			p := c.Path(r.Results[0], nil)
-			if !strings.HasPrefix(p, "$0[") || !strings.HasSuffix(p, "]#0") || !isKeyOf(p[3:len(p)-3], act) {
-				okRet = false
-			}
-		}
-		c.Check("C14.G1", "GetValue:returns-member", okRet, gv.Pos(), "GetValue returns the member stored under the action's value key")
-		// GetAction
-		c.CheckGuard("C14.G1", "GetAction:member-present", ga, nil, &GCheck{Name: `patch["action"] ok`, MatchOK: func(c *Ctx, v ssa.Value, env Env) bool {
-			lk, ok := v.(*ssa.Lookup)
-			return ok && c.Path(lk.X, env) == "$0" && c.Path(lk.Index, env) == `"action"`
-		}})
-		c.CheckGuard("C14.G1", "GetAction:supported", ga, nil, cfgOK("actionConfig[action] ok", func(string) bool { return true }))
-	}
+	c.patchAccessorRules(cfgFn)
 	c.Min("C14.G1", 10)
 
 	// ---- T1
@@ -1834,6 +1754,48 @@ func (c *Ctx) applyPatchesFoldRule(rule string) {
 				}
 			}
 		}
+		// between the steps nothing else writes the running document: what applyPatch hands back goes to the next
+		// applyPatch (or is returned) and to no function that may store into it
+		{
+			var bad []string
+			if len(aps) == 1 {
+				var follow func(v ssa.Value, d int)
+				seenV := map[ssa.Value]bool{}
+				follow = func(v ssa.Value, d int) {
+					if v == nil || seenV[v] || d > 4 || v.Referrers() == nil {
+						return
+					}
+					seenV[v] = true
+					for _, r := range *v.Referrers() {
+						switch y := r.(type) {
+						case *ssa.Phi:
+							follow(y, d+1)
+						case *ssa.ChangeType:
+							follow(y, d+1)
+						case *ssa.MapUpdate:
+							if y.Map == v {
+								bad = append(bad, c.pos(y.Pos())+": the fold function itself stores into the running document")
+							}
+						case *ssa.Call:
+							if y == aps[0] {
+								continue
+							}
+							g := y.Call.StaticCallee()
+							if g == nil || !inModule(g) || g.Blocks == nil {
+								continue
+							}
+							for i, a := range y.Call.Args {
+								if a == v && i < len(g.Params) && mayFill(g.Params[i], 0) {
+									bad = append(bad, c.pos(y.Pos())+": the running document is handed to "+short(g.String())+", which may store into it")
+								}
+							}
+						}
+					}
+				}
+				follow(extractOf(aps[0], 0), 0)
+			}
+			c.Check(rule, "fold:nothing-else-writes-the-running-document", len(bad) == 0, ap.Pos(), "between two applyPatch steps the running document is written by nothing else", bad...)
+		}
 		c.Check(rule, "fold:starts-from-deep-copy", okCopy, ap.Pos(), "the fold starts from a JSON round trip (json.Unmarshal of json.Marshal) of the document parameter, made in ApplyPatches or in a helper")
 		c.Check(rule, "fold:threads-result-in-index-order", okFold, ap.Pos(), "one loop over the patches parameter in index order; each step receives the previous result; the last result is returned")
 		c.CheckGuardLoop(rule, "fold:handler-error-aborts", ap, nil, callTo("applyPatch ok", apf))
@@ -1893,4 +1855,131 @@ func (c *Ctx) actionValueKeys() (map[string]string, *ssa.Function) {
 		}
 	}
 	return nil, nil
+}
+
+// listAccessorLoopsRule: the accessors through which validators and handlers see the lists of a document or a patch
+// (ParsePublicKeys, ParseServices, StringArray) hand on every entry of the right kind: their entry loop is left only at
+// its end — an early "not a list of …" return hides the remaining entries from whoever relies on the accessor, while
+// the presence test on the raw list has already passed.
+func (c *Ctx) listAccessorLoopsRule(rule string) {
+	for _, pn := range []string{"ParsePublicKeys", "ParseServices", "StringArray"} {
+		pf := c.Fn("document", pn)
+		if pf == nil {
+			c.Unresolved(rule, "document."+pn)
+			continue
+		}
+		c.Analysed(pf)
+		var bad []string
+		nLoops := 0
+		for _, h := range append([]*ssa.Function{pf}, c.helpersOf(pf, 2)...) {
+			bad = append(bad, c.earlyLoopExits(h)...)
+			nLoops += len(naturalLoops(h))
+		}
+		c.Check(rule, pn+":every-entry-handed-on", len(bad) == 0 && nLoops > 0, pf.Pos(), pn+": the loop over the list's entries is left only at its end", bad...)
+	}
+}
+
+// patchFormatConstRule: format strings in the patch package are constants: caller-supplied JSON never takes the place of a format
+// (a '%' in a service endpoint would be read as a verb)
+func (c *Ctx) patchFormatConstRule(rule string) {
+	n, bad := 0, 0
+	var where []string
+	for _, f := range c.Funcs {
+		if pkgPathOf(f) != modPkg+"patch" {
+			continue
+		}
+		forEachInstr(f, func(in ssa.Instruction) {
+			cl, ok := in.(*ssa.Call)
+			if !ok || cl.Call.StaticCallee() == nil || len(cl.Call.Args) < 1 {
+				return
+			}
+			switch cl.Call.StaticCallee().String() {
+			case "fmt.Sprintf", "fmt.Errorf", "fmt.Fprintf", "fmt.Printf":
+			default:
+				return
+			}
+			fa := cl.Call.Args[0]
+			if cl.Call.StaticCallee().String() == "fmt.Fprintf" && len(cl.Call.Args) > 1 {
+				fa = cl.Call.Args[1]
+			}
+			n++
+			if _, isK := fa.(*ssa.Const); !isK {
+				bad++
+				where = append(where, short(f.String())+" at "+c.pos(cl.Pos())+": "+c.Path(fa, nil))
+			}
+		})
+	}
+	c.Check(rule, "constant-format-strings", bad == 0 && n >= 5, 0, fmt.Sprintf("%d formatting calls in pkg/patch, %d with a format that is not a constant %v", n, bad, where))
+}
+
+// patchAccessorRules (C14.G1): FromBytes succeeds only across GetAction and GetValue of the decoded patch; GetValue
+// hands back exactly the member stored under the action's value key; GetAction admits only actions of the table.
+func (c *Ctx) patchAccessorRules(cfgFn *ssa.Function) {
+	fb := c.Fn("patch", "FromBytes")
+	ga := c.Method("patch", "Patch", "GetAction")
+	gv := c.Method("patch", "Patch", "GetValue")
+	if fb == nil || ga == nil || gv == nil {
+		c.Unresolved("C14.G1", "patch.FromBytes / GetAction / GetValue")
+	} else {
+		var A string
+		for _, r := range successReturns(fb) {
+			A = c.Path(r.Results[0], nil)
+		}
+		jsonU := c.ExtFn("encoding/json", "Unmarshal")
+		c.CheckGuard("C14.G1", "FromBytes:decode", fb, nil, callTo("json.Unmarshal(data, &patch)", jsonU, pathIs("$0")))
+		c.CheckGuard("C14.G1", "FromBytes:GetAction", fb, nil, callTo("patch.GetAction()", ga, pathIs(A)))
+		c.CheckGuard("C14.G1", "FromBytes:GetValue", fb, nil, callTo("patch.GetValue()", gv, pathIs(A)))
+		c.Check("C14.G1", "FromBytes:returns-decoded", A == "makemap<patch.Patch>" || A == "new<patch.Patch>#0", fb.Pos(), "FromBytes returns the decoded patch "+A)
+		// GetValue
+		act := short(ga.String()) + "($0)#0"
+		c.CheckGuard("C14.G1", "GetValue:own-action", gv, nil, callTo("GetAction()", ga, pathIs("$0")))
+		// the action GetAction hands back is a key of actionConfig (the lookup's index is the value it returns): a plain
+		// actionConfig[action] in GetValue is then a lookup that cannot miss
+		gaRet := ""
+		for _, r := range successReturns(ga) {
+			gaRet = c.Path(r.Results[0], nil)
+		}
+		// a lookup of the table: actionConfig[a] (comma-ok), or a call of the table function with a
+		cfgOK := func(name string, idx func(string) bool) *GCheck {
+			return &GCheck{Name: name, NoDescend: true, MatchOK: func(c *Ctx, v ssa.Value, env Env) bool {
+				lk, ok := v.(*ssa.Lookup)
+				return ok && c.Path(lk.X, env) == "global:patch.actionConfig" && idx(c.Path(lk.Index, env))
+			}, MatchCall: func(c *Ctx, call *ssa.Call, env Env) bool {
+				return cfgFn != nil && call.Call.StaticCallee() == cfgFn && len(call.Call.Args) == 1 && idx(c.Path(call.Call.Args[0], env))
+			}}
+		}
+		noOK := func(s string) string { return strings.ReplaceAll(s, "]#0", "]") }
+		// the value key of action a, as a path: the looked-up entry or the function's first result
+		isKeyOf := func(p, a string) bool {
+			if noOK(p) == "global:patch.actionConfig["+a+"]" {
+				return true
+			}
+			return cfgFn != nil && p == short(cfgFn.String())+"("+a+")#0"
+		}
+		gaMember, _, gaN := c.Guard(ga, nil, cfgOK("actionConfig[returned action] ok", pathIs(gaRet)), nil)
+		cfgLookup := cfgOK("actionConfig[action] ok", pathIs(act))
+		if gaMember && gaN > 0 {
+			c.CheckGuard("C14.G1", "GetValue:config-lookup", gv, nil, anyOf("actionConfig[action] ok, or the action is the one GetAction vouches for", cfgLookup, callTo("GetAction()", ga, pathIs("$0"))))
+		} else {
+			c.CheckGuard("C14.G1", "GetValue:config-lookup", gv, nil, cfgLookup)
+		}
+		c.CheckGuard("C14.G1", "GetValue:member-present", gv, nil, &GCheck{Name: "patch[valueKey] ok", MatchOK: func(c *Ctx, v ssa.Value, env Env) bool {
+			lk, ok := v.(*ssa.Lookup)
+			return ok && c.Path(lk.X, env) == "$0" && isKeyOf(c.Path(lk.Index, env), act)
+		}})
+		okRet := true
+		for _, r := range successReturns(gv) {
+			p := c.Path(r.Results[0], nil)
+			if !strings.HasPrefix(p, "$0[") || !strings.HasSuffix(p, "]#0") || !isKeyOf(p[3:len(p)-3], act) {
+				okRet = false
+			}
+		}
+		c.Check("C14.G1", "GetValue:returns-member", okRet, gv.Pos(), "GetValue returns the member stored under the action's value key")
+		// GetAction
+		c.CheckGuard("C14.G1", "GetAction:member-present", ga, nil, &GCheck{Name: `patch["action"] ok`, MatchOK: func(c *Ctx, v ssa.Value, env Env) bool {
+			lk, ok := v.(*ssa.Lookup)
+			return ok && c.Path(lk.X, env) == "$0" && c.Path(lk.Index, env) == `"action"`
+		}})
+		c.CheckGuard("C14.G1", "GetAction:supported", ga, nil, cfgOK("actionConfig[action] ok", func(string) bool { return true }))
+	}
 }
